@@ -6,6 +6,7 @@ import SmppVerif.Lemmas.Policy
 import SmppVerif.Lemmas.Expiry
 import SmppVerif.Lemmas.SweepTasks
 import SmppVerif.Lemmas.SenderLoop
+import SmppVerif.Gen.Site
 
 namespace SmppVerif.Props.C13
 open SmppVerif SmppVerif.Policy SmppVerif.Corr SmppVerif.Lemmas.Policy SmppVerif.Lemmas.Corr
@@ -154,6 +155,12 @@ theorem sender_sequence_numbers_distinct (dflt : Pdu.Enc) (ms : List Pdu.Sm) (gs
       (n ≤ period gs.seq → (((loop dflt gs ms).flatMap wireOf).map seqOf).Nodup) :=
   loop_seqs_nodup dflt ms gs hinv
 
+/-- tie to the source (Gen/Site.lean): `get` pops the request under the response's number before anything is awaited, the
+    sweep deletes before it reports -/
+theorem correlator_step_order :
+    Gen.Site.corrGet = ["pop:_store", "_remove_expired"] ∧
+    Gen.Site.removeExpired = ["monotonic", "get:_store", "del:_store", "expired"] := by decide
+
 end SmppVerif.Props.C13
 
 #print axioms SmppVerif.Props.C13.esme_generator_ok
@@ -170,3 +177,4 @@ end SmppVerif.Props.C13
 #print axioms SmppVerif.Props.C13.attribution_source
 #print axioms SmppVerif.Props.C13.matched_at_most_once_under_interleaving
 #print axioms SmppVerif.Props.C13.sender_sequence_numbers_distinct
+#print axioms SmppVerif.Props.C13.correlator_step_order
